@@ -11,6 +11,7 @@ CONSTANTS
  Cancels = TRUE
  Failures = TRUE
  Timeouts = FALSE
+ Resumes = FALSE
  Evictions = FALSE
 PROPERTY Termination
 INVARIANT Inv_C01
